@@ -67,9 +67,11 @@ PROPS = {
     ),
     "C01": dict(
         engine="TestC01",
-        lean_modules=["S2S.Props.C01", "S2S.Props.C03S"],
+        lean_modules=["S2S.Props.C01", "S2S.Props.C03S", "S2S.Props.C03F"],
         required_theorems=["C01_never_acks_unconfirmed", "C01_refuted_before_fix", "C03S_acks_history_grows", "C03S_late_ack_still_safe",
-                           "C03S_visible_prefix_monotone_bounded", "C03S_late_ack_safe_modulo_known"],
+                           "C03S_visible_prefix_monotone_bounded", "C03S_late_ack_safe_modulo_known",
+                           "C03F_incarnation_monotone", "C03F_incarnation_bounded", "C03F_refuted_after_source_restart",
+                           "C03F_incarnation_one_descent", "C03F_history_bounded_maxHigh"],
         rule=ROUTING_RULE + " Focus C01: 2-4 targets, prompt / lagging / silent targets (acks at the last high, at earlier highs, at ids inside a batch, "
              "or never), gated (slow) targets; monitor: every upstream ack a vs every received task id < a confirmed by its owner target's own acks.",
         assumptions=ROUTING_ASSUMPTIONS,
@@ -98,7 +100,9 @@ PROPS = {
              "A quarter as many additional traces (C03 and C01) have SLOW SOURCES (op `sgate`: the source cluster stops reading anything new, so the "
              "receiver's Send of an acknowledgement blocks half-way through the step the model treats as atomic; a repeated watermark = keep-alive still "
              "passes). The model driver runs them with the blocked receiver's `rack` disabled and the held acknowledgement hidden until the gate opens "
-             "(still a run of `step`; what the source sees is a prefix of `acksSent`, which is what the C03S theorems judge).",
+             "(still a run of `step`; what the source sees is a prefix of `acksSent`, which is what the C03S theorems judge). C03 additionally runs a "
+             "fifth as many traces WITH target-stream failures (no source restarts, no drain): monotone and bounded on every source stream that has "
+             "never been broken (theorems C03F_*, checked with C01).",
         assumptions=ROUTING_ASSUMPTIONS + ["liveness is the 'two fair rounds' reading: the source re-sends its final watermark and every target acknowledges what it received, twice; real-time tickers are not modelled"],
         timeout={"quick": 1200, "thorough": 7200},
     ),
